@@ -69,14 +69,14 @@ def secrets32(R, tag, k):
 def groups(R, thorough):
     """list of (group name, victim, [(label, secret, public)])"""
     g = []
-    kc = 10 if thorough else 3
+    kc = 24 if thorough else 3
     g.append(("x25519/u=9", "x25519", [(l, s, None) for l, s in secrets32(R, "x", kc)]))
     g.append(("x25519/u=seeded", "x25519", [(l, s, vlib.prng_bytes(R.seed, "c19/u", 32)) for l, s in secrets32(R, "x2", kc)]))
     g.append(("x25519_base", "x25519_base", [(l, s, None) for l, s in secrets32(R, "xb", kc)]))
     g.append(("ed_keypair", "ed_keypair", [(l, s, None) for l, s in secrets32(R, "ek", kc)]))
     g.append(("ed_sign/msg96", "ed_sign", [(l, s, None) for l, s in secrets32(R, "es", kc)]))
     g.append(("ed_sign/msg0", "ed_sign", [(l, s, []) for l, s in secrets32(R, "es0", kc)]))
-    km = 14 if thorough else 8
+    km = 30 if thorough else 8
     for mname, msg in (("seq96", None), ("ff32", [255] * 32), ("ff16", [255] * 16), ("ff47", [255] * 47), ("zero64", [0] * 64)):
         # keys with r in {1, 2, 4} (single-bit), saturated r, seeded: the final reduction h >= p must not be a branch
         ks = secrets32(R, "p/" + mname, km) + [("r=ones,s=0", [255] * 16 + [0] * 16), ("r=0,s=ones", [0] * 16 + [255] * 16), ("r=1,s=seeded", [1] + [0] * 15 + vlib.prng_bytes(R.seed, "c19/ps", 16))]
@@ -161,7 +161,7 @@ def run(R):
     R.rule = ("one product history per (victim, public input): copies = secrets (%s for the curve victims, %s+3 keys x 5 messages for Poly1305, "
               "%s for HMAC / ciphers) or (tag, candidate) pairs for the comparisons (equal + every first-mismatch position x 2 mismatch kinds, lengths 16/20/28/32/64); "
               "event = instruction count, then one digest per 4096 instruction addresses; distinct = (victim, public input, secret label)" % (
-                  "10" if thorough else "3", "14" if thorough else "8", "14" if thorough else "8"))
+                  "24" if thorough else "3", "30" if thorough else "8", "30" if thorough else "8"))
     for name in ("x25519/u=9", "ed_sign/msg96", "poly1305/ff32", "mac_eq/len20"):
         R.sample({"victim": name, **R.extra["victims"][name]})
     R.assumptions += ["the observable is the sequence of instruction addresses of this compiler's release build on this x86-64 host: no memory-address, cache or timing model",
